@@ -203,7 +203,20 @@ pub fn run(a: &Args) {
         }
         check::<postcard_schema::key::Key>(o, r, "Key", vec![postcard_schema::key::Key::for_path::<u8>("a"), postcard_schema::key::Key::for_path::<Nested>("topic/x")]);
         // the schema-of-schema kind: schemas are themselves values with a schema
-        let trees: Vec<ST> = (0..6).map(|i| crate::stree::gen_tree(r, 1 + i % 4)).collect();
+        let mut trees: Vec<ST> = (0..6).map(|i| crate::stree::gen_tree(r, 1 + i % 4)).collect();
+        // every leaf kind once, so that each variant index of the schema types is exercised
+        trees.push(ST::Tup((0..crate::stree::PRIMS.len()).map(ST::P).collect()));
+        // a schema written under the Schema kind by either schema type reads back as that schema
+        for t in &trees {
+            let want = t.owned();
+            let from_borrowed = postcard::to_allocvec(&t.borrowed_val()).ok().and_then(|b| postcard::from_bytes::<OwnedDataModelType>(&b).ok());
+            let from_owned = postcard::to_allocvec(&want).ok().and_then(|b| postcard::from_bytes::<OwnedDataModelType>(&b).ok());
+            o.eval(&("schema_kind", t.to_string()), true);
+            if from_borrowed.as_ref() != Some(&want) || from_owned.as_ref() != Some(&want) {
+                o.fail("a schema serialised under the Schema kind (by DataModelType or OwnedDataModelType) reads back as that schema", t.to_string(),
+                       format!("from borrowed: {:?}; from owned: {:?}", from_borrowed.map(|x| ST::from_owned(&x).to_string()), from_owned.map(|x| ST::from_owned(&x).to_string())), t.to_string());
+            }
+        }
         check::<OwnedDataModelType>(o, r, "OwnedDataModelType", trees.iter().map(|t| t.owned()).collect());
         check::<DataModelType>(o, r, "DataModelType", trees.iter().map(|t| t.borrowed_val()).collect());
         check::<Option<Vec<(String, Mixed<u8>)>>>(o, r, "Option<Vec<(String,Mixed<u8>)>>", vec![None, Some(vec![]), Some(vec![("k".into(), Mixed::S { a: Some(3), b: [1, 2] }), ("".into(), Mixed::U)])]);
